@@ -727,20 +727,40 @@ func (vf *VerifyFunc) yield(st *State) {
 	if vf.fc == nil || len(vf.fc.Relies) == 0 || len(st.frames) != 1 {
 		return
 	}
+	env := vf.env
+	if len(st.frames) == 1 {
+		env = vf.loopEnv(st.frames[0]) // rely locations may be rooted in locals (e.g. a handler looked up first)
+	}
 	for _, m := range vf.fc.Relies {
+		// a location rooted in a local that has no value yet names nothing
+		ids := map[string]bool{}
+		freeIdents(m.E, map[string]bool{}, ids)
+		missing := false
+		for id := range ids {
+			if _, ok := env[id]; !ok {
+				if _, ok2 := env["&"+id]; !ok2 && id != "all" {
+					if vf.fn != nil && vf.eng.localType(vf.fn, id) != nil {
+						missing = true
+					}
+				}
+			}
+		}
+		if missing {
+			continue
+		}
 		var before string
 		var key, as, ref string
 		if vf.fc.Grows[m.Src] {
 			if c, ok := m.E.(ECall); ok {
 				if g, ok2 := vf.eng.cs.Ghosts[c.Fun]; ok2 && g.Field && len(g.Params) == 2 && specSort(g.Result) == SBool && len(c.Args) == 1 {
-					ev := &evaluator{st: st, vf: vf, env: vf.env, pkgPath: vf.fc.PkgPath}
+					ev := &evaluator{st: st, vf: vf, env: env, pkgPath: vf.fc.PkgPath}
 					ref = ev.toSort(ev.eval(c.Args[0]), specSort(g.Params[0]))
 					key, as = "G:"+c.Fun, ghostFieldSort(g)
 					before = sel(st.heapGet(key, as), ref)
 				}
 			}
 		}
-		vf.havocLoc(st, vf.fc, m, vf.env)
+		vf.havocLoc(st, vf.fc, m, env)
 		if before != "" {
 			after := sel(st.heapGet(key, as), ref)
 			ks := specSort(vf.eng.cs.Ghosts[m.E.(ECall).Fun].Params[1])
@@ -750,6 +770,21 @@ func (vf *VerifyFunc) yield(st *State) {
 }
 
 func (vf *VerifyFunc) chanOp(st *State, fr *Frame, ch *Val, op string, in ssa.Instruction) {
+	// call-site style assertions on channel operations: `call send#k: assert e` / `call recv#k: assert e`
+	if vf.fc != nil && len(st.frames) == 1 {
+		ord := vf.eng.info(fr.fn).chanOrd[in]
+		for _, c := range vf.fc.Calls {
+			if c.After || c.CallName != op || c.CallOrd != ord {
+				continue
+			}
+			vf.usedCallClauses[c] = true
+			env := vf.loopEnv(fr)
+			env["ch"] = ch
+			for gi, t := range vf.evalGoals(st, c, env, nil) {
+				st.check("assert", splitLbl(lbl(c, fmt.Sprintf("%s#%d", op, ord)), c, gi), c.Prop, c.Src, st.pos(in), t)
+			}
+		}
+	}
 	vf.yield(st)
 	if vf.nopanic || vf.fc != nil && vf.fc.Flags["nilchan"] {
 		st.check("nilchan", fmt.Sprintf("%s#%d", op, vf.eng.info(fr.fn).chanOrd[in]), "", op+" on nil channel blocks forever", st.pos(in), not(eq(ch.Tm, "0")))
